@@ -80,10 +80,18 @@ def check(ctx):
         total_bad += bad
         ctx.oblige("correspondence", "S-pure/%s-%s: observation identical to ASan/A on %d lines" % (variant, ename, len(lines)), bad == 0, "%d differing" % bad)
         ctx.coverage.setdefault("environments", {})["%s-%s" % (variant, ename)] = {"lines": len(lines), "differing": bad, "env": env}
+    # a result computed from memory the library never wrote (stack or heap) is not a function of the input: memcheck on the
+    # uninstrumented build flags every branch or output that depends on an uninitialised value
+    from checks import c01
+    short = [l for l in lines if len(l) < 3000]
+    c01.valgrind_pass(ctx, rnd.sample(short, min(len(short), 400 if ctx.tier == "quick" else 4000)), "S-pure/memcheck")
     fw.conclude(ctx, broken)
 
 
 def replay(rp):
+    if rp.get("kind") == "valgrind-line":
+        from checks import c01
+        return c01.replay(rp)
     import diffrun
     if rp.get("kind") == "env-line":
         a, err = diffrun.build_harness("asan")
